@@ -109,8 +109,10 @@ pub fn adhoc(repo: &std::path::Path, rel: &str, name: &str) -> Result<Group, Str
                 g.structs.push((rel.to_string(), e.ident.to_string()));
                 types.push(e.ident.to_string());
             }
-            syn::Item::Const(c) => g.consts.push((rel.to_string(), String::new(), c.ident.to_string())),
-            syn::Item::Fn(f) => g.fns.push((rel.to_string(), String::new(), f.sig.ident.to_string())),
+            syn::Item::Const(c) if !c.ident.to_string().starts_with("INL_") => g.consts.push((rel.to_string(), String::new(), c.ident.to_string())),
+            // (fns named `inl_*` are left out of the whitelist so that their calls get inlined)
+            syn::Item::Fn(f) if !f.sig.ident.to_string().starts_with("inl_") => g.fns.push((rel.to_string(), String::new(), f.sig.ident.to_string())),
+
             syn::Item::Type(t) => g.result_aliases.push(t.ident.to_string()),
             _ => {}
         }
@@ -125,7 +127,7 @@ pub fn adhoc(repo: &std::path::Path, rel: &str, name: &str) -> Result<Group, Str
                 for ii in &i.items {
                     match ii {
                         syn::ImplItem::Const(c) => g.consts.push((rel.to_string(), owner.clone(), c.ident.to_string())),
-                        syn::ImplItem::Method(m) => g.fns.push((rel.to_string(), owner.clone(), m.sig.ident.to_string())),
+                        syn::ImplItem::Method(m) if !m.sig.ident.to_string().starts_with("inl_") => g.fns.push((rel.to_string(), owner.clone(), m.sig.ident.to_string())),
                         _ => {}
                     }
                 }
